@@ -33,8 +33,10 @@ def build(ctx):
     ctx.level = "proof"
     ctx.explanation = ("F: assigns/reads inference over the AST of every method of Crystal (aliases, in-place operations, setattr/delattr, transitive self calls): "
                        "queries are pure w.r.t. core state, memo fields are filled only behind their guard, mutators invalidate every memo and stale stored CIF data, "
-                       "objects held by memos are read-only apart from one write-once annotation. The step from these per-method facts to 'every history' is induction "
-                       "on the history length (cited). B: histories up to length 3-4 replayed natively against fresh crystals.")
+                       "objects held by memos are read-only apart from one write-once annotation; methods and properties of the three component objects (UnitCell, SpaceGroup, AsymmetricUnit) that queries call or read "
+                       "assign nothing the component's constructor initialised, a memo kept inside a component is dropped by every method that assigns its constructor-initialised attributes, no caching decorators, "
+                       "and every call inside chmpy of a memo-filling query passes the filler's default arguments (memos are not keyed by arguments). The step from these per-method facts to 'every history' is induction "
+                       "on the history length (cited). B: histories up to length 3-4 (queries, exports, derived crystals, the state-changing operations and rejected calls of them) replayed natively against crystals rebuilt from primitive data.")
     ctx.assumptions += ["numpy/scipy/chmpy helper functions called by Crystal methods do not mutate their arguments except through the syntactic forms the checker tracks "
                         "(stores, augmented assignment, in-place methods, out=)",
                         "Hoare-logic soundness of representation invariants over call histories",
